@@ -147,6 +147,21 @@ def f_one_bit_encode():
     return (out >> 26) & 1 == 1, f"re-encoded bit {(out >> 26) & 1}"
 
 
+@finding("C02/preferred-units-reencode/130312", "C02")
+def f_units_reencode():
+    """decode with a unit preference, then encode: the converted value is encoded as if it were SI"""
+    from nmea2000.decoder import NMEA2000Decoder
+    from nmea2000.encoder import NMEA2000Encoder
+    from nmea2000.consts import PhysicalQuantities
+    d = NMEA2000Decoder(preferred_units={PhysicalQuantities.TEMPERATURE: "c"})
+    m = d.decode_basic_string("2020-01-01-00:00:00.000,5,130312,1,255,8,01,00,00,a5,73,ff,ff,ff", True)
+    try:
+        out = NMEA2000Encoder().encode_actisense(m).split()[-1]
+    except Exception as e:
+        out = type(e).__name__
+    return out == "010000A573FFFFFF", f"130312 payload 010000A573FFFFFF decoded with TEMPERATURE:c re-encodes as {out}"
+
+
 # ---------------------------------------------------------------- C04
 @finding("C04/padding-dependence/130816", "C04")
 def f_padding():
@@ -161,6 +176,16 @@ def f_padding():
             out = d.decode_basic_string(_basic(130816, fr))
         res.append([(f.id, f.raw_value) for f in out.fields] if out else None)
     return res[0] == res[1], f"fields differ with padding 0xFF vs 0x00: {res[0]} / {res[1]}"
+
+
+@finding("C01/time-of-day-value/TIME", "C01")
+def f_time_of_day():
+    """in-range TIME raw values 86400 s and 86401 s (leap second) are reported as 00:00:00; sub-second parts are dropped from the value"""
+    d = _dec()
+    m = d.decode_basic_string("2024-01-01T00:00:00.000Z,3,126992,7,255,8,ff,0f,ff,ff,00,98,7f,33", True)
+    f = m.fields[-1]
+    import datetime
+    return not (f.raw_value == 86400.0 and f.value == datetime.time(0, 0)), f"126992 time raw {f.raw_value} s (database range 0..86401) is reported as {f.value}"
 
 
 # ---------------------------------------------------------------- C06
@@ -557,6 +582,45 @@ def f_degrees_twice():
     b = [(f.id, f.value, f.unit_of_measurement) for f in pref.fields if f.physical_quantities == PQ.ANGLE]
     ok = all(abs(x[1] - y[1]) < 0.51 for x, y in zip(a, b))
     return ok, f"without preference {a}; with ANGLE:deg {b}"
+
+
+@finding("C19/unsendable-not-harmless/header-none", "C19")
+def f_send_header_none():
+    """send() of a message whose priority or destination is None (JSON null) raised TypeError outside the encoder's own error handling and was
+    treated as a lost connection: DISCONNECTED, status callbacks, reconnection of a healthy link"""
+    import nmea2000.ioclient as io_
+    from nmea2000.message import NMEA2000Message, NMEA2000Field
+
+    async def main():
+        opened = []
+
+        async def fake_open(host, port):
+            w = _FakeWriter()
+            opened.append(w)
+            return asyncio.StreamReader(), w
+        io_.asyncio.open_connection = fake_open
+        c = io_.EByteNmea2000Gateway("h", 1)
+        states = []
+
+        async def cb(s):
+            states.append(s.name)
+        c.set_status_callback(cb)
+        await c.connect()
+        for prio, dst in ((None, 255), (6, None)):
+            await c.send(NMEA2000Message(PGN=59904, id="isoRequest", fields=[NMEA2000Field("pgn", value=60928, raw_value=60928)], source=1, destination=dst, priority=prio))
+            await asyncio.sleep(0.05)
+        st = c.state.name
+        n = len(opened)
+        before = list(states)
+        await c.close()
+        return before, st, n
+    import asyncio as _a
+    real_open = _a.open_connection
+    try:
+        states, st, n = _run(main())
+    finally:
+        _a.open_connection = real_open
+    return states == ["CONNECTED"] and st == "CONNECTED" and n == 1, f"status log before close {states}, state {st}, connections opened {n}"
 
 
 @finding("C19/concurrent-send-interleave", "C19")
